@@ -6,6 +6,7 @@ package main
 import (
 	"fmt"
 	"go/token"
+	"go/types"
 	"os"
 	"runtime/debug"
 	"sort"
@@ -139,6 +140,18 @@ type Engine struct {
 	typeCache map[string]bool
 	concreteInputs []InputRec
 	fallbacks map[string]*Solver
+	methodCache map[methodKey]*ssa.Function
+	implCache   map[implKey]bool
+}
+
+type methodKey struct {
+	t types.Type
+	m *types.Func
+}
+
+type implKey struct {
+	t types.Type
+	i *types.Interface
 }
 
 func (e *Engine) closeSolvers() {
@@ -161,6 +174,12 @@ func (e *Engine) where() string {
 	s := " in " + fr.fn.String()
 	if fr.pos.IsValid() {
 		s += " at " + e.prog.Fset.Position(fr.pos).String()
+	}
+	// a few callers, to locate stubs that are missing
+	n := 0
+	for c := fr.caller; c != nil && n < 5; c = c.caller {
+		s += " <- " + shortFn(c.fn.String())
+		n++
 	}
 	return s
 }
